@@ -34,6 +34,7 @@ func checkC05(c *Ctx, r *Report) {
 	finiteRule(c, r, "C05.FINITE")
 	c05Kind(c, r)
 	c05Enum(c, r)
+	c05TimeRange(c, r)
 }
 
 func c05Leaf(c *Ctx, r *Report, a *Anchors) {
@@ -358,4 +359,48 @@ func c05Enum(c *Ctx, r *Report) {
 	}
 	r.fnSeen(fnName(in), fnName(out))
 	r.check("C05.ENUM", "(*Enum).CoerceOut: checks that the value is a declared member (as CoerceIn does)", out.Pos(), !member(in) || member(out), "an enum-typed field can carry any string a resolver returns: the response may hold a name that is not a declared value")
+}
+
+// c05TimeRange: a number of seconds turned into a time.Time by the Time scalar is bounded from both sides
+// first. RFC 3339 has four-digit years; time.Unix accepts any int64, and Format then prints years such as
+// 292277026596, which is not the representation of the declared scalar.
+func c05TimeRange(c *Ctx, r *Report) {
+	r.rule("C05.TIMERANGE", "in the Time scalar's coercers every time.Unix call whose arguments derive from the value being coerced is dominated by a lower and an upper bound test of that value")
+	n := 0
+	for _, fn := range c.allFns {
+		if fn.Signature.Recv() == nil || !c.isNamed(fn.Signature.Recv().Type(), "timeScalar") {
+			continue
+		}
+		k := 0
+		for _, ci := range callsIn(fn) {
+			if !isFuncCall(ci, "time", "Unix") {
+				continue
+			}
+			// the non-constant argument, traced back through arithmetic to the asserted value
+			var src ssa.Value
+			for _, a := range ci.Common().Args {
+				if _, isC := a.(*ssa.Const); isC {
+					continue
+				}
+				ls := arithLeaves(a, 0)
+				if len(ls) == 0 {
+					ls = []ssa.Value{a}
+				}
+				for _, lf := range ls {
+					if _, isC := lf.(*ssa.Const); !isC {
+						src = lf
+					}
+				}
+			}
+			if src == nil {
+				continue
+			}
+			n++
+			k++
+			lo, up := boundsOn(ci.Block(), src)
+			r.check("C05.TIMERANGE", fmt.Sprintf("%s: time.Unix #%d is applied to a bounded number of seconds", fnName(fn), k), ci.Pos(), lo && up,
+				fmt.Sprintf("lower bound tested: %v, upper bound tested: %v: a timestamp beyond year 9999 (or before year 0) is formatted with a year RFC 3339 cannot express and reaches the response as the value of a Time field without an error", lo, up))
+		}
+	}
+	r.floor("C05.TIMERANGE", "time.Unix conversions in the Time scalar", n, 2)
 }
